@@ -174,13 +174,15 @@ class Execution:
         return k
 
 
-def explore(make_programs, bound, check, granularity="line", max_executions=None, runner=None):
+def explore(make_programs, bound, check, granularity="line", max_executions=None, runner=None, first_slice=None):
     """Enumerate all schedules with at most `bound` preemptions.
 
     make_programs() -> (list of callables, context) builds fresh programs / operands for
     every execution (operands must not be shared between executions).
     check(execution, context) is called on every complete execution.
     runner(prefix) -> Execution may be supplied to run executions elsewhere (fresh process).
+    first_slice = (k, n): explore only the first-level deviations at decision indices i with i % n == k (the
+    default schedule itself is run by every slice); the union over k = 0..n-1 is the whole bounded space.
     Returns statistics."""
     stats = {"executions": 0, "decisions_max": 0, "points_max": 0, "preemption_bound": bound, "capped": False, "with_preemption": 0}
 
@@ -211,6 +213,8 @@ def explore(make_programs, bound, check, granularity="line", max_executions=None
         check(x, getattr(x, "ctx", None))
         labels = [(p["running"], p["label"]) for p in x.points]
         for i in range(len(prefix), len(x.points)):
+            if first_slice is not None and not prefix and i % first_slice[1] != first_slice[0]:
+                continue  # this shard only owns the first-level deviations with i = k (mod n)
             p = x.points[i]
             cost = x.preemptions_before(i)
             for alt in range(1, len(p["enabled"])):
